@@ -5,28 +5,34 @@
 set -u
 D=$(realpath $1); PROP=$2; TIER=${3:-quick}
 export GOFLAGS=-mod=mod GOPROXY=off GOSUMDB=off GOTOOLCHAIN=local
-WT=/tmp/verif-seed-wt
+WT=${SEED_WT:-/tmp/verif-seed-wt}
 rm -rf $WT; git -C /repo worktree prune; git -C /repo worktree add -q --detach $WT HEAD || exit 2
 demo=$(python3 -c "import json;print(json.load(open('$D/meta.json')).get('demo_file',''))")
 cmd=$(python3 -c "import json;print(json.load(open('$D/meta.json')).get('demo_cmd',''))")
 pkgdir=$(dirname "$demo")
-if ! git -C $WT apply $D/patch.diff; then echo "RESULT patch does not apply"; git -C /repo worktree remove --force $WT; exit 3; fi
+P=$D/patch.diff
+[ -f $D/patch-ported-to-current-tree.diff ] && P=$D/patch-ported-to-current-tree.diff
+if ! git -C $WT apply $P 2>/dev/null; then
+  # later fix: commits may have moved the context: 3-way, and keep the result as the patch used from here on
+  if ! git -C $WT apply --3way $P >/dev/null 2>&1; then echo "RESULT patch does not apply"; git -C /repo worktree remove --force $WT; exit 3; fi
+  git -C $WT diff HEAD > ${WT}.patch; git -C $WT reset -q; P=${WT}.patch
+fi
 ( cd $WT && go build ./... ) || { echo "RESULT does not build"; git -C /repo worktree remove --force $WT; exit 3; }
 suite=$(cd $WT && go test -vet=off -count=1 ./... 2>&1 | grep -v "no test files" | grep -vc "^ok")
 for f in $D/*_test.go; do cp $f $WT/$pkgdir/; done
-with=$(cd $WT && timeout 400 bash -c "$cmd" >/tmp/seed-demo-with.log 2>&1; echo $?)
-git -C $WT apply -R $D/patch.diff
-without=$(cd $WT && timeout 400 bash -c "$cmd" >/tmp/seed-demo-without.log 2>&1; echo $?)
+with=$(cd $WT && timeout 400 bash -c "$cmd" >${WT}-with.log 2>&1; echo $?)
+git -C $WT apply -R $P
+without=$(cd $WT && timeout 400 bash -c "$cmd" >${WT}-without.log 2>&1; echo $?)
 echo "CONFIRM suite_failures=$suite demo_with_patch_rc=$with demo_without_patch_rc=$without"
 # now the checks: against /repo itself (apply, check, undo) unless SEEDED_SCRATCH=1, in which case the same tree
 # (HEAD + patch) is checked in the scratch worktree so that a background run using /repo is not disturbed
 cd /verif
 if [ "${SEEDED_SCRATCH:-0}" = 1 ]; then
-  git -C $WT checkout -q -- . ; git -C $WT clean -fdq; git -C $WT apply $D/patch.diff
-  export VERIF_REPO=$WT VERIF_OUT=/tmp/verif-seed-out
+  git -C $WT checkout -q -- . ; git -C $WT clean -fdq; git -C $WT apply $P
+  export VERIF_REPO=$WT VERIF_OUT=${WT}-out
 else
   git -C /repo worktree remove --force $WT
-  git -C /repo apply $D/patch.diff || { echo "RESULT cannot apply to /repo"; exit 3; }
+  git -C /repo apply $P || { echo "RESULT cannot apply to /repo"; exit 3; }
 fi
 for p in $PROP; do
   out=$(./check $p $TIER 2>&1); rc=$?
@@ -34,7 +40,7 @@ for p in $PROP; do
   echo "$out" | grep -m2 -A6 "^VIOLATION" | cut -c1-400 | head -14
 done
 if [ "${SEEDED_SCRATCH:-0}" = 1 ]; then
-  git -C /repo worktree remove --force $WT; rm -rf /tmp/verif-seed-out
+  git -C /repo worktree remove --force $WT; rm -rf ${WT}-out
 else
   git -C /repo checkout -- . ; git -C /repo status --short | head -3
   rm -rf /verif/replays/$PROP 2>/dev/null
